@@ -337,7 +337,8 @@ class GenericCheck(Check):
             test_value = ast.literal_eval(self.kind)
             return match == str(test_value)
 
-        except ValueError:
+        except (ValueError, SyntaxError, TypeError):
+            # Not a literal; treat it as a path into the credentials
             pass
 
         path_segments = self.kind.split('.')
